@@ -864,11 +864,11 @@ func (st *tunnelClientStream) finishStream(err error, trailers metadata.MD) bool
 	}
 	defer st.cancel()
 	st.ch.removeStream(st.streamID)
-	st.receiver.close()
 
+	// Publish trailers (and unblock anything awaiting headers) before closing
+	// the receiver: closing the receiver is what lets RecvMsg return the final
+	// result to the caller, who may then immediately ask for trailers.
 	st.metaMu.Lock()
-	defer st.metaMu.Unlock()
-
 	st.trailers = trailers
 	for _, tlrs := range st.trailersTargets {
 		*tlrs = trailers
@@ -878,6 +878,9 @@ func (st *tunnelClientStream) finishStream(err error, trailers metadata.MD) bool
 		close(st.gotHeadersSignal)
 	}
 	close(st.doneSignal)
+	st.metaMu.Unlock()
+
+	st.receiver.close()
 
 	return true
 }
